@@ -189,7 +189,7 @@ open ZnVerif.Proofs.ModulesDfs
 /-- the source the loader runs for the module registered under the name `n` -/
 def msrc (files : Files) (mainSrc : ModuleSrc) (n : Name) : Option ModuleSrc :=
   if n = mainName then some mainSrc else
-  match finder files (parseLibName n) with
+  match finder .repaired files (parseLibName n) with
   | .src s => some s
   | _ => none
 
@@ -1270,18 +1270,18 @@ theorem evalProgram_spec {files : Files} {mainSrc : ModuleSrc} {O : Oracle} {lib
       · exact ((hp.ext.trans (ext_record _ _)).trans (Ext.of_same hs)).trans (ext_record _ _)
 
 theorem msrc_of_finder {files : Files} {mainSrc : ModuleSrc} {n : Name} {s : ModuleSrc} (hne : n ≠ mainName)
-    (hf : finder files (parseLibName n) = .src s) : msrc files mainSrc n = some s := by
+    (hf : finder .repaired files (parseLibName n) = .src s) : msrc files mainSrc n = some s := by
   unfold msrc; simp [hne, hf]
 
 theorem loadModule_spec {files : Files} {mainSrc : ModuleSrc} {O : Oracle} {libs : Libs} {cf : Nat}
-    (hO : OracleOK O) : ∀ f, LoadSpec files mainSrc (loadModule O files libs cf f)
+    (hO : OracleOK O) : ∀ f, LoadSpec files mainSrc (loadModule .repaired O files libs cf f)
   | 0 => by
     intro vm n m rest nm src imp hS _ _ _ _ _ _
     exact ⟨hS, Ext.rfl' _, fun h => by cases h⟩
   | f + 1 => by
     intro vm n m rest nm src imp hS hL hC himp hname hreg hty
     unfold loadModule
-    cases hfind : finder files (parseLibName n) with
+    cases hfind : finder .repaired files (parseLibName n) with
     | panic => exact ⟨hS, Ext.rfl' _, fun h => by cases h⟩
     | notFound => exact ⟨hS, Ext.rfl' _, fun h => by cases h⟩
     | emptySrc => exact ⟨hS, Ext.rfl' _, fun h => by cases h⟩
@@ -1317,7 +1317,7 @@ theorem loadModule_spec {files : Files} {mainSrc : ModuleSrc} {O : Oracle} {libs
       have hC1 : Cur files mainSrc vm1 (namesOf vm).length (m :: rest) n s :=
         ⟨st1, cs1, by rw [n1]; simp, msrc_of_finder hne hfind, hreach⟩
       have hp := evalProgram_spec (libs := libs) (cf := cf) hO (loadModule_spec (libs := libs) (cf := cf) hO f) hS1 hL1 hC1
-      cases hr : evalProgram O libs cf (loadModule O files libs cf f) vm1 (namesOf vm).length s with
+      cases hr : evalProgram O libs cf (loadModule .repaired O files libs cf f) vm1 (namesOf vm).length s with
       | err e vm' => rw [hr] at hp; exact ErrPost.trans hE1 hp
       | ok vm2 =>
         rw [hr] at hp
@@ -1420,7 +1420,7 @@ theorem start_invariants (files : Files) (mainSrc : ModuleSrc) :
 
 theorem runWith_spec {files : Files} {mainSrc : ModuleSrc} {O : Oracle} {libs : Libs} {lf cf : Nat}
     (hO : OracleOK O) :
-    match runWith O files libs lf cf mainSrc with
+    match runWith .repaired O files libs lf cf mainSrc with
     | .ok vm' => SInv files mainSrc vm' ∧ LInv files mainSrc vm' [] ∧ vm'.stack = [] ∧ Ev.done 0 ∈ vm'.log
     | .err e vm' => SInv files mainSrc vm' ∧ (e = .code 63 → HasCycle vm'.graph) := by
   obtain ⟨hS, hL, hC⟩ := start_invariants files mainSrc
@@ -1428,7 +1428,7 @@ theorem runWith_spec {files : Files} {mainSrc : ModuleSrc} {O : Oracle} {libs : 
   unfold runWith
   dsimp only
   have e0 : (VM.init.allocateModule mainName).2 = 0 := rfl
-  change (match evalProgram O libs cf (loadModule O files libs cf lf) vmStart (VM.init.allocateModule mainName).2 mainSrc with
+  change (match evalProgram O libs cf (loadModule .repaired O files libs cf lf) vmStart (VM.init.allocateModule mainName).2 mainSrc with
     | .err e vm' => Res.err e vm'
     | .ok vm2 => match vm2.popFrame with
       | none => Res.err Err.panic vm2
@@ -1436,7 +1436,7 @@ theorem runWith_spec {files : Files} {mainSrc : ModuleSrc} {O : Oracle} {libs : 
     | .ok vm' => SInv files mainSrc vm' ∧ LInv files mainSrc vm' [] ∧ vm'.stack = [] ∧ Ev.done 0 ∈ vm'.log
     | .err e vm' => SInv files mainSrc vm' ∧ (e = .code 63 → HasCycle vm'.graph))
   rw [e0]
-  cases hr : evalProgram O libs cf (loadModule O files libs cf lf) vmStart 0 mainSrc with
+  cases hr : evalProgram O libs cf (loadModule .repaired O files libs cf lf) vmStart 0 mainSrc with
   | err e vm' => rw [hr] at hp; exact ⟨hp.1, hp.2.2⟩
   | ok vm2 =>
     rw [hr] at hp
